@@ -197,7 +197,7 @@ Connect ==
             [] dev \in {"non_ebb", "silent"} ->     \* two probes, neither verified
                  /\ RecordError("noconnect") /\ wr' = <<"v", "v">> /\ ret' = <<"bool", FALSE>> /\ pc' = "ret" /\ failed' = TRUE /\ UNCHANGED <<port, prog, ver>>
             [] HasVersion(dev) /\ ~Supported(dev) ->           \* verified, firmware below the minimum
-                 /\ RecordError("oldfw") /\ wr' = <<"v">> /\ ret' = <<"bool", FALSE>> /\ pc' = "ret" /\ failed' = TRUE /\ ver' = "old"
+                 /\ RecordError("oldfw") /\ wr' = (IF Late(dev) THEN <<"v", "v">> ELSE <<"v">>) /\ ret' = <<"bool", FALSE>> /\ pc' = "ret" /\ failed' = TRUE /\ ver' = "old"
                  /\ port' = (IF FixConnect THEN "none" ELSE "open") /\ UNCHANGED prog
             [] dev \in {"ebb_noversion", "ebb_in_text"} /\ (FixStale \/ ver # "ok") ->
                  \* "EBB" seen but no version in the reply: nothing known about the firmware -> unsupported
@@ -205,7 +205,7 @@ Connect ==
                  /\ ver' = (IF FixStale THEN "none" ELSE ver) /\ port' = "none" /\ UNCHANGED prog
             [] OTHER ->                      \* ebb_ok (first probe) / ebb_late (second probe): CU,10,1 raw, then the nickname query
                                              \* (pinned, FixStale = FALSE: also a version-less "EBB" reply when a version from an EARLIER board is still cached)
-                 /\ wr' = (IF dev = "ebb_late" THEN <<"v", "v">> ELSE <<"v">>) \o <<"CU,10,1">>
+                 /\ wr' = (IF Late(dev) THEN <<"v", "v">> ELSE <<"v">>) \o <<"CU,10,1">>
                  /\ ver' = (IF Supported(dev) THEN "ok" ELSE ver)
                  /\ port' = "open" /\ prog' = <<Stp("qry", "QT", "QT", <<>>, "")>> /\ pc' = "step" /\ UNCHANGED <<err, ret, failed>>
   /\ UNCHANGED <<name, board, dev, replugs, ncalls, nfaults, call, deadAtEntry, empties, rep, got, errAtEntry, hist>>
